@@ -65,6 +65,36 @@ CLAIMED = {
         "Same trusted base as C05 plus ntcore's local publish/subscribe; un-annotated getters are only checked for value and a plausible inferred type.",
         "3.2 (C11)",
     ),
+    "C08": (
+        "Hypothesis-generated robot definitions (component classes, shared classes, 14 attribute relations, 9 constructor relations, robot inheritance, on-disk autonomous mode) run through the real robotInit(); oracle = independent resolver written from the statement (object identity, untouched attributes, MagicInjectError iff unresolvable, snapshots from inside setup())",
+        "Generated search over program definitions with an independent resolver as reference model; identity (is) comparisons make a wrong-but-equal object visible.",
+        "Trusts the resolver in vf/labs/inject_lab.py as the reading of the statement; None values and non-type annotations are outside the generated domain.",
+        "3.3",
+    ),
+    "C09": (
+        "Hypothesis-generated tunable classes (15 type kinds incl. bytes, struct, arrays, type-hinted empty sequences; writeDefault; subtable; base/derived) x owner kind/names x pre-existing topic values x python/NetworkTables write-read operation lists on two instances; oracle = dict model of key->value plus a type-string table, read back from both sides after every operation",
+        "Stateful generated search against a dictionary model with independent publishers/subscribers on the same NetworkTables instance.",
+        "Trusts ntcore's local publish/subscribe; struct payloads are decoded by hand; NaN/NUL/surrogates not generated.",
+        "3.4",
+    ),
+    "C12": (
+        "Hypothesis-generated class definitions over 6 hierarchy shapes (single, linear, diamond, mix-in, autonomous) with overriding and one optional defect; every attribute name of StateMachine and every illegal/legal signature enumerated x 3 decorators; oracle computed from the definition through Python's own MRO",
+        "Exhaustive over the finite sub-domains (forbidden names, signature kinds), generated search over inheritance shapes; expected exception classes / state_names / descriptions computed from the description.",
+        "Trusts Python's MRO as the meaning of 'base classes first'; order is judged only among names defined once.",
+        "3.5",
+    ),
+    "C15": (
+        "Hypothesis-generated StatefulAutonomous classes (chains/loops/branches, 16 signatures, scripts) x 1-3 autonomous periods with dyadic tm sequences x dashboard edits between and during periods; oracle = SpecSA reference model, exact comparison of the whole argument trace",
+        "Generated search over mode definitions and multi-period tm schedules against a reference model; all times are multiples of 1/64 s so the comparison needs no tolerance.",
+        "Trusts SpecSA as the reading of the statement; one instance per class.",
+        "3.7",
+    ),
+    "C19": (
+        "Hypothesis-generated sample/record/operation histories for Toggle (plain and debounced), ButtonDebouncer, PeriodicFilter and SimpleWatchdog under the paused FPGA clock and a substituted monotonic clock; oracles = edge/period rules and documented-behaviour models evaluated on the same doubles / integer microseconds, log capture for the watchdog",
+        "Generated search over histories with clock advances placed around every threshold (period, timeout, 1 s print limit); safety rules plus liveness companions keep the rules from being vacuous.",
+        "Trusts the fake joystick duck type and the substituted clock; watchdog state before the first reset is not judged.",
+        "3.11",
+    ),
     "C13": (
         "AutonomousStateMachine built from generated shapes, on_enable/on_iteration/on_disable histories over 1-3 periods; oracles = SpecSM with the latch, and a differential twin (same class body on StateMachine driven by engage()+execute())",
         "Generated search with two independent oracles (reference model and differential twin) over multi-period histories.",
